@@ -634,6 +634,17 @@ def algebra_search(ctx):
                     allok = False
                     ctx.fail(f"algebra:mutates-operand:{kind}", f"an operand changed while computing {cs}",
                              src + f"r = {cs}\nassert np.allclose(h{i}.matrix, M{i}, atol=1e-9)\n", broken=["C15_search_algebra"])
+            # products of operands that have all been looked at by now (dense matrices cached),
+            # in both orders: h_i @ h_j denotes M_i M_j whatever was computed on the factors before
+            for i, j in ((0, 1), (1, 0), (1, 2), (2, 0)):
+                ctx.stat(f"alg_product_after_use:{kind}")
+                P = np.asarray((objs[i] @ objs[j]).matrix)
+                if not close(P, mats[i] @ mats[j]):
+                    allok = False
+                    ctx.fail(f"algebra:@:{kind}", f"h{i} @ h{j} formed after the matrices of both factors were computed differs from M{i} M{j} ({kind})",
+                             src + f"h{i}.matrix; h{j}.matrix\nassert np.allclose((h{i} @ h{j}).matrix, M{i} @ M{j}, atol=1e-9)\n",
+                             expected=str((mats[i] @ mats[j]).tolist()), observed=str(P.tolist()), broken=["C15_search_algebra"])
+                    break
         # mixed classes: either refused or right
         e0, _ = build_expr(forms[0], style, g.custom, g.qubit_of)
         import sympy
